@@ -254,6 +254,17 @@ LawMinMaxMember == \* the extremum is an addressed number and bounds all of them
         /\ \E k \in 1..Len(ns) : ns[k] = res
         /\ \A k \in 1..Len(ns) : IF F = "MIN" THEN RLe(res, ns[k]) ELSE RLe(ns[k], res)
 
+\* homogeneity: multiplying every addressed number by k multiplies SUM / AVERAGE / MIN / MAX by k and SUMPRODUCT by k to the
+\* number of its ranges (the replay uses it with k = 2^32: whole numbers whose products leave the 64-bit integers)
+ScaleVal(x, k) == IF x.t = "num" THEN RMul(x, Whole(k)) ELSE x
+ScaleArg(a, k) == IF a.t = "arr" THEN [t |-> "arr", v |-> [r \in 1..Len(a.v) |-> [c \in 1..Len(a.v[r]) |-> ScaleVal(a.v[r][c], k)]]]
+                  ELSE ScaleVal(a, k)
+LawScale ==
+    (Done /\ res.t = "num" /\ F \in {"SUM", "SUMPRODUCT", "MAX", "MIN", "AVERAGE"} /\ (F = "SUMPRODUCT" => \A i \in 1..Len(A) : A[i].t = "arr")) =>
+        LET r2 == AggCall(F, [i \in 1..Len(A) |-> ScaleArg(A[i], 3)])
+            kk == IF F = "SUMPRODUCT" THEN RPowNat(Whole(3), Len(A)) ELSE Whole(3)
+        IN r2.t = "open" \/ kk.t = "open" \/ RMul(res, kk).t = "open" \/ r2 = RMul(res, kk)
+
 LawSumProdOne == (Done /\ F = "SUMPRODUCT" /\ Len(A) = 1) => res = AggCall("SUM", A)
 
 LawShape ==
